@@ -3,7 +3,8 @@
    state does not depend on the observers; observers are handed keys that the core never uses.
    Bit-reproducibility of XLA and "different keys give different runs" are runtime/statistical facts: explored by the check. *)
 From Coq Require Import List Arith.
-From Lerax Require Import Common Env OnPolicy Observers ObserversProofs.
+From Coq Require Import QArith.
+From Lerax Require Import Common Env OnPolicy Replay OffPolicy Observers ObserversProofs.
 Import ListNotations.
 
 Theorem C11_noninterference : forall (St : Type) core_reset core_iter (CB1 CB2 : Type)
@@ -20,3 +21,19 @@ Theorem C11_callback_keys_fresh : forall k : kpath,
   (forall i, (i < 8)%nat -> ks k 9 8 <> ks k 9 i).
 Proof. exact callback_keys_fresh. Qed.
 Print Assumptions C11_callback_keys_fresh.
+
+(* the same statement for the CONCRETE collection models that the C04 / C05 checks validate against the real collect_rollout:
+   whatever a step observer does with what it is shown (row, reward, done, its own key), the collected rows, buffers and
+   carried environment / policy states are those of the observer-free collection *)
+Theorem C11_onpolicy_collection_ignores_observer : forall (S PS O CS : Type) gamma (E : env S Q O) (P : acpol PS Q O)
+    (cb : CS -> @orow PS O -> kpath -> CS) keys st c,
+  let '(st', _, rows) := scan_steps_cb gamma E P cb st c keys in
+  (st', rows) = scan_steps gamma E P st keys.
+Proof. intros S PS O CS gamma E P. exact (onpolicy_collection_ignores_observer gamma E P). Qed.
+Print Assumptions C11_onpolicy_collection_ignores_observer.
+
+Theorem C11_offpolicy_collection_ignores_observer : forall (S PS O CS : Type) (E : env S Q O) (P : acpol PS Q O)
+    (cb : CS -> trow O Q PS -> kpath -> CS) keys st c,
+  fst (off_scan_cb E P cb st c keys) = off_scan E P st keys.
+Proof. intros S PS O CS E P. exact (offpolicy_collection_ignores_observer E P). Qed.
+Print Assumptions C11_offpolicy_collection_ignores_observer.
